@@ -18,6 +18,7 @@ type Config struct {
 	TickBudget int  // ticker ticks per execution
 	MaxPoints  int  // safety net against livelock (0: 20000)
 	MaxExec    int  // cap on executions (0: none); hitting it makes the result non-exhaustive
+	MapOrders  bool // the entry a map iteration starts at is a scheduler choice (default: sorted key order)
 	Races      bool // happens-before race oracle on (needs the -races instrumentation of the rewriter)
 	StateKeys  bool // prune by global state key: alternatives of a point are not explored again from a state that
 	// was already expanded with at least the same remaining preemption budget
@@ -85,7 +86,8 @@ func Explore(cfg Config) Stats {
 	seenSched := map[string]bool{}
 	UseStateKeys = cfg.StateKeys
 	RaceMode = cfg.Races
-	defer func() { UseStateKeys = false; RaceMode = false }()
+	MapOrders = cfg.MapOrders
+	defer func() { UseStateKeys = false; RaceMode = false; MapOrders = false }()
 	maxB := cfg.Bound
 	if maxB < 0 {
 		maxB = 1 << 30
